@@ -141,6 +141,36 @@ func TestVerifSockaddrTable(t *testing.T) {
 			}
 		}()
 	}
+	// every interface of this (network namespace's) host as a zone name: the kernel form carries its index, and the
+	// way back gives the name again
+	if ifs, err := net.Interfaces(); err == nil {
+		for _, ifi := range ifs {
+			for _, kind := range []string{"tcp", "udp"} {
+				ip := net.ParseIP("fe80::2")
+				var in net.Addr = &net.TCPAddr{IP: ip, Port: 4242, Zone: ifi.Name}
+				if kind == "udp" {
+					in = &net.UDPAddr{IP: ip, Port: 4242, Zone: ifi.Name}
+				}
+				rep.Eval("zone-" + kind + "-" + ifi.Name)
+				sa := NetAddrToSockaddr(in)
+				s6, ok := sa.(*unix.SockaddrInet6)
+				if !ok || int(s6.ZoneId) != ifi.Index {
+					rep.Violation("sockaddr/zoneid", fmt.Sprintf("%v: kernel form %#v, want zone id %d (interface %s)", in, sa, ifi.Index, ifi.Name), nil)
+					continue
+				}
+				var back net.Addr
+				if kind == "udp" {
+					back = SockaddrToUDPAddr(sa)
+				} else {
+					back = SockaddrToTCPOrUnixAddr(sa)
+				}
+				if back == nil || back.String() != in.String() {
+					rep.Violation("sockaddr/roundtrip", fmt.Sprintf("%v -> %#v -> %v", in, sa, back), nil)
+				}
+			}
+		}
+		rep.Set("interfaces_as_zones", len(ifs))
+	}
 	for _, k := range kept {
 		if !same(k) {
 			rep.Violation("sockaddr/unstable", fmt.Sprintf("%s: the converted address changed after later conversions: now %v (%q)", k.key, k.back, fmt.Sprintf("%#v", k.back)), nil)
